@@ -31,6 +31,15 @@ RULE += ("; wave 5 (props/bufstore.py, coq/theories/BufStore.v): buffer.rs at ST
          "implementation, and a stream-level python oracle that keeps no buffer contents (window = slice of the delivered data at position)")
 TRUSTED = TRUSTED + ["props/bufstore.Sim: offsets-only reference of BufferWindow (oracle bufstore-window / bufstore-position / bufstore-full)"]
 # <<< w_buf
+# >>> s_c08 (wave 6)
+RULE += ("; wave 6 (props/C08_sizes.py): size ladders 0 1 2 3 7 8 9 15 16 17 31 .. 4097 65533 65534 65535 65536, one dimension at a time, "
+         "expected answers by construction + python reference lexer, release (+ extracted model where it is fast enough) and debug: string "
+         "payload length on the read side (lexer, from_slice, streaming under cap = token-1 / token / token+1 / 65539 / default 32768) and on "
+         "the write side (up to 131073 bytes; sinks taking 1..9 bytes per call; fixed sinks with every amount of room), exact two-cut "
+         "schedules at every pair of offsets of every token kind (+ truncated, + invalid rgb), the buffer ending at every offset of every "
+         "kind, 0..65536 tokens per input / per sink, position() call by call across 2^16 / 2^17 / 2^18, capacities 1..65536, up to 65539 "
+         "refills inside one token, read sizes, read_bytes(0..65536), integers around every power of two, a buffer recycled up to 300 times")
+# <<< s_c08
 
 OPEN, CLOSE, EQUAL, U32, U64, I32, BOOL, QUOTED, UNQUOTED, F32, F64, RGB, I64 = (
     0x0003, 0x0004, 0x0001, 0x0014, 0x029c, 0x000c, 0x000e, 0x000f, 0x0017, 0x000d, 0x0167, 0x0243, 0x0317)
@@ -617,6 +626,10 @@ def run(ctx):
     from props import bufstore
     bufstore.run(ctx, "C08", 3000, 40000)
     # <<< w_buf
+    # >>> s_c08 (wave 6): size / boundary ladders, one dimension at a time (audit/C08.md "Size dimensions"), see props/C08_sizes.py
+    from props import C08_sizes
+    C08_sizes.run_sizes(ctx)
+    # <<< s_c08
 
 
 def search(ctx):
